@@ -1204,6 +1204,13 @@ func phase3Systematic(emit func(cdoc)) {
 			for _, w := range wrongTypeValues {
 				emit(cdoc{kind: kind, doc: withMember(base, kw.name, mustJV(w)), phase: 3, tags: []string{"phase3", "mutation:type", "systematic", "kw:" + kw.name}})
 			}
+			_ = kw
+		}
+		// member names at the edge of what the decoders test for ("x-" prefix, "$ref", "/" prefix, the empty name)
+		for _, n := range []string{"x", "X", "x-", "X-", "-", "", "$", "/", "$ref ", "xx"} {
+			emit(cdoc{kind: kind, doc: withMember(base, n, jNum("1")), phase: 3, tags: []string{"phase3", "mutation:edge-name", "systematic"}})
+		}
+		for _, kw := range kindTable[kind].kws {
 			if kw.special == "ref" { // every odd spelling of a reference, on every kind that can hold one
 				for _, o := range oddRefs {
 					emit(cdoc{kind: kind, doc: withMember(base, kw.name, jStr(o)), phase: 3, tags: []string{"phase3", "mutation:ref", "systematic", "kw:" + kw.name}})
